@@ -41,8 +41,13 @@ package main
 //@   loop 1 invariant forall(j, 0, k, args[j] == "")
 //@   ensures result == exists(j, 0, len(args), args[j] != "")
 
-//@ func setLints [C15]
+//@ func setLints [C15 C13]
 //@   maypanic
+// C13: the tool adds no rejection of its own - when it returns an error, the configuration file could
+// not be read, the -nameFilter expression does not compile, the -profile is not registered, or the
+// library's Filter (whose contract accepts every listed name and source) returned that error
+//@   ensures [C13] implies(result1 != nil, (g.nCfgFile == 1 && g.ret1CfgFile != nil) || (g.nCompile == 1 && g.ret1Compile != nil) ||
+//@                                        (g.nProf == 1 && !g.ret1Prof) || (g.nFlt == 1 && g.ret1Flt != nil && result1 == g.ret1Flt))
 //@   ensures implies(result1 == nil && noSelector(), g.nFlt == 0 && result0 == lint.GlobalRegistry())
 //@   ensures implies(result1 == nil && !noSelector(), g.nFlt == 1 && result0 == g.retFlt && g.recvFlt == lint.GlobalRegistry())
 //@   ensures implies(g.nFlt == 1 && nameFilter == "", g.argFlt.NameFilter == nil)
